@@ -1178,6 +1178,10 @@ M('sweep11.macros.check_evt_props_ok', ['C02'], 'macros/src/span.rs',
   '    check_evt_props(&ctxt_props)?;',
   '    check_evt_props(&ctxt_props).ok();', 'C02.R4:macro-errors-propagate', count=2)
 
+# ---- reverse patch of fix b2fa7b0 (D25: outer format flags reach hole values) ------------------------------------------------------------
+M("C16.rev_fix_hole_value_gets_outer_formatter", ["C16"], "core/src/template.rs",
+  "        self.write_fmt(format_args!(\"{}\", value))", "        fmt::Display::fmt(&value, self)", "C16.R2:hole-values-flag-neutral")
+
 # ---- round 6 (own probing of the blocking entry points): Trigger, send_or_wait, callbacks ------------------------------------------
 M("C07.wait_zero_timeout_reports_flushed", ["C07"], "batcher/src/sync.rs",
   "            if timeout == Duration::ZERO {\n                return false;", "            if timeout == Duration::ZERO {\n                return true;", "C07.R4:Trigger")
